@@ -117,6 +117,23 @@ Theorem C02_file_rel_meaning : forall d s, file_rel d s <->
   (d_charts d) (s_maps s).
 Proof. exact (fun d s => conj (fun H => H) (fun H => H)). Qed.
 
+(* ---- the READ chart's tempo list when the tempo changes are on measure lines (guard sm_tempo_on_lines: every #BPMS beat is
+   a multiple of 4): the reader does not reseat, and every chart's tempo list IS the file's tempo list - same number of
+   rows, in beat order, each at the millisecond position of its beat (Integrate.time_of from -#OFFSET), with its bpm,
+   metronome 4 ---- *)
+Theorem C02_sm_read_tempo_list_on_lines : forall txt : text, c02_domb txt = true -> sm_tempo_on_lines txt = true ->
+  exists d s, sm_denote txt = Some d /\ sm_read live_conf current txt = Some s /\ tempo_exact d s.
+Proof. exact (sm_read_tempo_lines_conf live_conf _ _ C02_constants_are_reference C02_snapper_table_ok C02_grid48_in_table). Qed.
+Theorem C02_tempo_exact_meaning : forall d s, tempo_exact d s <->
+  Forall (fun c => Forall2 (fun (b tp : Q * Q * Q) => fst (fst b) == snd tp /\ snd (fst b) = snd (fst tp) /\ snd b = 4) (c_bpms c) (d_tempo d)) (s_maps s).
+Proof. exact (fun d s => conj (fun H => H) (fun H => H)). Qed.
+Example C02_example_on_lines :
+  c02_domb w_read_on_lines = true /\ sm_tempo_on_lines w_read_on_lines = true /\
+  match sm_denote w_read_on_lines, sm_read live_conf current w_read_on_lines with
+  | Some d, Some s => (length (d_tempo d) =? 2)%nat && forallb (fun c => (length (c_bpms c) =? 2)%nat) (s_maps s)
+  | _, _ => false end = true.
+Proof. exact sm_read_example_on_lines. Qed.
+
 (* ---- the statement over the FORMER domain (well formed + c02_dom + dialect_ok) is FALSE of the faithful model: seven
    corners, each a concrete text (replayed on the real code: same behaviour), each excluded by one clause of c02_domb ---- *)
 Theorem C02_sm_read_refuted_semicolon_in_comment :
